@@ -196,6 +196,65 @@ def deps_of(vfile):
     return seen
 
 
+def direct_deps(vfile):
+    """CF.* files directly required by a .v file (paths relative to coq/)."""
+    out = []
+    try:
+        src = strip_comments(open(os.path.join(COQ_DIR, vfile)).read())
+    except OSError:
+        return out
+    for m in re.finditer(r'\bCF\.([A-Za-z0-9_]+)\.([A-Za-z0-9_]+)', src):
+        out.append('%s/%s.v' % (m.group(1), m.group(2)))
+    for m in re.finditer(r'From\s+CF\s+Require\s+(?:Import\s+|Export\s+)?([^.]*(?:\.[A-Za-z0-9_]+)*)\s*\.', src):
+        for tok in m.group(1).split():
+            parts = tok.split('.')
+            if len(parts) == 2:
+                out.append('%s/%s.v' % (parts[0], parts[1]))
+    seen = []
+    for d in out:
+        if d not in seen and d != vfile:
+            seen.append(d)
+    return seen
+
+
+def build(vfile, timeout=1500, _done=None, _stack=()):
+    """Bring vfile's .vo up to date (recursively its CF dependencies first) with plain coqc; no Makefile involved,
+    so concurrent checks of different properties never touch each other's files.  Returns the list of files compiled."""
+    done = _done if _done is not None else {}
+    if vfile in done:
+        return []
+    if vfile in _stack:
+        raise CoqError('dependency cycle through %s' % vfile, vfile)
+    compiled = []
+    deps = direct_deps(vfile)
+    for d in deps:
+        compiled += build(d, timeout, done, _stack + (vfile,))
+    v = os.path.join(COQ_DIR, vfile)
+    vo = v[:-2] + '.vo'
+    if not os.path.exists(v):
+        raise CoqError('missing source file %s' % vfile, vfile)
+    stale = (not os.path.exists(vo)) or os.path.getmtime(vo) < os.path.getmtime(v)
+    if not stale:
+        for d in deps:
+            dvo = os.path.join(COQ_DIR, d[:-2] + '.vo')
+            if os.path.exists(dvo) and os.path.getmtime(dvo) > os.path.getmtime(vo):
+                stale = True
+                break
+    if stale:
+        lk = _lock(vfile.split('/')[0])
+        try:
+            # re-check under the lock: another process may have built it meanwhile
+            if (not os.path.exists(vo)) or os.path.getmtime(vo) < os.path.getmtime(v) or any(
+                    os.path.exists(os.path.join(COQ_DIR, d[:-2] + '.vo')) and
+                    os.path.getmtime(os.path.join(COQ_DIR, d[:-2] + '.vo')) > os.path.getmtime(vo) for d in deps):
+                coqc(vfile, timeout=timeout)
+                compiled.append(vfile)
+        finally:
+            lk.close()
+    done[vfile] = True
+    return compiled
+
+
 def proof_step(property_file, allowed_axioms=(), timeout=1500):
     """Build the property's files and check its theorems.
 
@@ -222,10 +281,10 @@ def proof_step(property_file, allowed_axioms=(), timeout=1500):
         res['errors'].append({'file': f, 'line': k, 'statement': enclosing_statement(f, k),
                               'message': 'forbidden construct: ' + text})
     # build dependencies (not the property file itself: it is always recompiled to read its output)
-    targets = [d.replace('.v', '.vo') for d in deps if d != property_file]
     try:
-        if targets:
-            make(targets, timeout=timeout)
+        done = {}
+        for d in direct_deps(property_file):
+            build(d, timeout=timeout, _done=done)
         lk = _lock(property_file.split('/')[0])
         try:
             out = coqc(property_file, timeout=timeout)
